@@ -78,13 +78,13 @@ def certify(ctx, cases, stats):
     from vlib import cstr, clist
     seen = set()
     exprs, who = [], []
-    stats["tval"] = {"certified": 0, "not_a_plain_nest": {}, "validator_rejected": 0}
+    stats["tval"] = {"certified": 0, "not_a_plain_nest": {}, "validator_rejected": 0, "validator": {}}
     for c in cases:
         if c.text in seen:
             continue
         seen.add(c.text)
         try:
-            L, shape, views, acc, lv, outr = nestview.extract(c.spec, c.text)
+            L, shape, views, acc, lv, outr, sels = nestview.extract(c.spec, c.text)
         except nestview.NotANest as e:
             k = str(e).split(" ")[0]
             stats["tval"]["not_a_plain_nest"][k] = stats["tval"]["not_a_plain_nest"].get(k, 0) + 1
@@ -93,9 +93,20 @@ def certify(ctx, cases, stats):
         csh = clist(clist(clist(map(cstr, rs)) for rs in tm) for tm in shape)
         cv = clist("(%s, %s)" % (cstr(r), clist(clist("%d%%nat" % i for i in p) for p in per)) for r, per in views)
         clv = clist(clist("%d%%nat" % i for i in ps) for ps in lv)
-        exprs.append("(show_bool (nest_full_okb %s %s %s %s %s %s))" % (cl, csh, cv, "true" if acc else "false", clv, clist(map(cstr, outr))))
-        who.append((c, L, shape, {"views": views, "accumulates": acc, "leaf": lv, "out": outr}))
-    res = vlib.coq_eval_lines("c01v", ["TV.Model.Show", "TV.Model.Nest"], "", exprs)
+        cacc, cout = "true" if acc else "false", clist(map(cstr, outr))
+        csel = lambda x: "None" if x is None else "(Some %d%%nat)" % x
+        if all(x is None for x in sels):
+            exprs.append("(show_bool (nest_full_okb %s %s %s %s %s %s))" % (cl, csh, cv, cacc, clv, cout))
+            stats["tval"]["validator"]["nest_full_okb"] = stats["tval"]["validator"].get("nest_full_okb", 0) + 1
+        elif len(sels) == 1:
+            ctsh = clist(clist(map(cstr, rs)) for rs in shape[0])
+            exprs.append("(show_bool (nest_take1_full_okb %s %s %s %s %s %s %s))" % (cl, ctsh, cv, csel(sels[0]), cacc, clv, cout))
+            stats["tval"]["validator"]["nest_take1_full_okb"] = stats["tval"]["validator"].get("nest_take1_full_okb", 0) + 1
+        else:
+            exprs.append("(show_bool (nest_take_full_okb %s %s %s %s %s %s %s))" % (cl, csh, cv, clist(map(csel, sels)), cacc, clv, cout))
+            stats["tval"]["validator"]["nest_take_full_okb"] = stats["tval"]["validator"].get("nest_take_full_okb", 0) + 1
+        who.append((c, L, shape, {"views": views, "accumulates": acc, "leaf": lv, "out": outr, "selectors": sels}))
+    res = vlib.coq_eval_lines("c01v", ["TV.Model.Show", "TV.Model.Nest", "TV.Model.NestTake"], "", exprs)
     for (c, L, shape, views), r in zip(who, res):
         if r == "T":
             stats["tval"]["certified"] += 1
@@ -117,8 +128,8 @@ def run(ctx):
     for c in rejected.values():
         same = [d for d in cases if d.text == c.text]
         if all(d.result["status"] == "RAN" and d.result["out"] == "OK" for d in same):
-            ctx.violation({"kind": "validator-rejected"},
-                          "nest_full_okb rejects the loop nest / update statement read off the emitted program (theorem C01_nest_full_okb_sound_partial no longer covers it); "
+            ctx.violation({"kind": "validator-rejected", "take_in_sum_selected_lacks_rank": specgen.take_selected_lacks_rank(c.spec.structs[0])},
+                          "the certified validator (nest_full_okb / nest_take_full_okb / nest_take1_full_okb) rejects the loop nest / update statement read off the emitted program (theorems C01_nest*_full_okb_sound_partial no longer cover it); "
                           "executions on %d inputs agree with the oracle" % len(same),
                           dict(c.replay(), nest=c.nest, theorem="C01_nest_full_okb_sound_partial"), no_input=True)
     bad = 0
